@@ -187,40 +187,57 @@ def r1_same_filter(ctx):
             ok2 = len(vp2) == 1 and o2.roots == {(h.id, vp2[0])} and not _plumbing_only(o2)
             ctx.check(R, "definition-version-from-arg:%s" % h.id.split("::")[-1], ok2, "%s passes its own version argument to the constructor: %s" % (h.id, ok2), (h, hbb))
     ctx.check(R, "definition-built-once", len(aggs) == 1, "construction sites of OpenApiDefinition: %d" % len(aggs), g, nontrivial=False)
-    # router side
+    # router side: CHAIN from endpoints()'s version parameter to every iter_handlers_from_node call
     ep = ctx.need_fn(ds, R, r"^router::HttpRouter::<Context>::endpoints$")
-    new = ctx.need_fn(ds, R, r"^router::HttpRouterIter::<'a, Context>::new$")
-    nxt = ctx.need_fn(ds, R, r"^<router::HttpRouterIter<'a, Context> as std::iter::Iterator>::next$")
     ihf = ctx.need_fn(ds, R, r"^router::iter_handlers_from_node$")
-    for bb, t in ep.live_calls(r"HttpRouterIter::<'a, Context>::new$"):
-        o = Flow(ds, entries=[ep.raw["id"]]).origins(ep, t["args"][1])
-        ctx.check(R, "endpoints-forwards-version", o.roots == {(ep.id, 2)} and not _plumbing_only(o), "endpoints() hands its version argument to the iterator unchanged", (ep, bb))
-    fln = Flow(ds, entries=[new.raw["id"]])
-    for bb, i, st in new.aggregates(r"^router::HttpRouterIter$"):
-        names = st["rv"].get("fields") or []
-        ov = fln.origins(new, st["rv"]["ops"][names.index("version")])
-        om = fln.origins(new, st["rv"]["ops"][names.index("method")])
-        ctx.check(R, "iter-stores-version", ov.roots == {(new.id, 2)} and not _plumbing_only(ov), "HttpRouterIter.version is new()'s version argument", (new, bb))
-        ctx.check(R, "iter-root-methods-filtered", any(c.endswith("iter_handlers_from_node") for c in om.calls), "the root node's handlers come from iter_handlers_from_node", (new, bb))
+    IT = "router::HttpRouterIter"
+    evp = [i for i in range(1, ep.argc + 1) if "Version" in ep.local_ty(i)]
+    if len(evp) != 1:
+        ctx.lost(R, "endpoints()'s version parameter")
+        return
+    evp = evp[0]
+    selfs = set((f.raw["id"], 1) for f in ds.F.values() if f.raw["kind"] != "Closure" and f.argc >= 1 and "router::HttpRouterIter<" in f.local_ty(1))
+    fle = Flow(ds, entries=[ep.raw["id"]], root_params=selfs)
+
+    def from_endpoints(o, allow_field):
+        none = ("std::option::Option", "None") in o.aggs
+        direct = o.roots == {(ep.id, evp)}
+        via = allow_field and (IT, "version") in o.fields and bool(o.roots) and all(r == (ep.id, evp) or (ds.F[r[0]].raw["id"], r[1]) in selfs for r in o.roots)
+        return (direct or via) and not none and not o.lits and not _plumbing_only(o), none
+
     ihf_callers = [(f, bb, t) for f, bb, t in ds.callers_of(r"^router::iter_handlers_from_node$") if bb in f.reachable(0)]
     for f, bb, t in ihf_callers:
-        o = Flow(ds, entries=[f.raw["id"]]).origins(f, t["args"][1])
-        if f.id == new.id:
-            ok = o.roots == {(f.id, 2)}
-        elif f.id == nxt.id:
-            ok = ("router::HttpRouterIter", "version") in o.fields and o.roots == {(f.id, 1)}
-        else:
-            ok = False
-        ctx.check(R, "node-filter-version:%s" % f.id.split("::")[-1], ok and not _plumbing_only(o), "iter_handlers_from_node is given the iterator's version in %s: %s" % (f.id, ok), (f, bb))
-    ctx.check(R, "node-filter-callers", len(ihf_callers) == 2, "callers of iter_handlers_from_node: %d" % len(ihf_callers), ihf, nontrivial=False)
-    wr = []
+        if len(t["args"]) < 2:
+            ctx.check(R, "node-filter-version:%s" % f.id.split("::")[-1], False, "iter_handlers_from_node call without a version argument", (f, bb))
+            continue
+        o = fle.origins(f, t["args"][1])
+        ok, none = from_endpoints(o, True)
+        ctx.check(R, "node-filter-version:%s" % f.id.split("::")[-1], ok,
+                  "the version given to endpoints() reaches this iter_handlers_from_node call in %s: %s (origins: roots %s%s%s)" % (
+                      f.id, ok, sorted(o.roots), ", iterator field `version`" if (IT, "version") in o.fields else "", ", a constant None" if none else ""), (f, bb))
+    ctx.check(R, "node-filter-callers", len(ihf_callers) >= 2, "callers of iter_handlers_from_node: %d" % len(ihf_callers), ihf, nontrivial=False)
+    nw = 0
     for f in ds.F.values():
         if "router::" not in f.id:
             continue
-        for adt, var, field, kind, bb, ops in field_writes(f, m.tw, lambda a: a == "router::HttpRouterIter"):
-            if field == "version" and kind != "agg":
-                wr.append((f.id, bb))
-    ctx.check(R, "iter-version-never-rewritten", not wr, "writes to HttpRouterIter.version other than construction: %s" % wr, new)
+        for adt, var, field, kind, bb, ops in field_writes(f, m.tw, lambda a: a == IT):
+            if bb not in f.reachable(0):
+                continue
+            if field == "version":
+                nw += 1
+                o = Origins()
+                for op in ops:
+                    o.update(fle.origins(f, op))
+                ok, none = from_endpoints(o, False)
+                ctx.check(R, "iter-version-write:%s" % f.id.split("::")[-1], ok,
+                          "HttpRouterIter.version is written in %s with endpoints()'s version: %s (roots %s%s)" % (f.id, ok, sorted(o.roots), ", a constant None" if none else ""), (f, bb))
+            elif field == "method":
+                o = Origins()
+                for op in ops:
+                    o.update(fle.origins(f, op))
+                ok = any(c.endswith("iter_handlers_from_node") for c in o.calls)
+                ctx.check(R, "iter-methods-filtered:%s" % f.id.split("::")[-1], ok, "the handler iterator stored in HttpRouterIter.method in %s comes from iter_handlers_from_node: %s" % (f.id, ok), (f, bb))
+    ctx.check(R, "iter-version-writes", nw >= 1, "writes to HttpRouterIter.version: %d" % nw, ihf, nontrivial=False)
     # the filter predicate
     flh = Flow(ds, entries=[ihf.raw["id"]])
     reg = [ds.F[x] for x in ds.region([ihf.id])]
@@ -272,28 +289,37 @@ def _bool_targets(f, sb):
     return tv.get(1, t["otherwise"]), tv.get(0, t["otherwise"])
 
 
-def _polarity(f, op, depth=0):
-    """True if the bool operand equals `<something>.visible`, False if it is its negation, None if
-    it is anything else (Not, == false, != true, copies are folded)."""
-    if depth > 8 or op.get("k") not in ("copy", "move"):
-        return None
+def _is_visible_read(f, op):
     pl = op["pl"]
     if pl["p"]:
         last = pl["p"][-1]
-        return True if isinstance(last, dict) and last.get("n") == "visible" else None
+        return isinstance(last, dict) and last.get("n") == "visible"
+    return False
+
+
+def _polarity(f, op, leaf=_is_visible_read, depth=0):
+    """True if the bool operand equals the leaf (by default `<something>.visible`), False if it is
+    its negation, None if it is anything else (Not, == false, != true and copies are folded)."""
+    if depth > 8 or op.get("k") not in ("copy", "move"):
+        return None
+    if leaf(f, op):
+        return True
+    pl = op["pl"]
+    if pl["p"]:
+        return None
     ds_ = [d for d in f.defs().get(pl["l"], []) if not f.blocks[d[0]]["cleanup"]]
     if len(ds_) != 1 or ds_[0][1] != "assign":
         return None
     rv = ds_[0][2]["rv"]
     if rv["rv"] == "use":
-        return _polarity(f, rv["op"], depth + 1)
+        return _polarity(f, rv["op"], leaf, depth + 1)
     if rv["rv"] == "unop" and rv["op"] == "Not":
-        p = _polarity(f, rv["a"], depth + 1)
+        p = _polarity(f, rv["a"], leaf, depth + 1)
         return None if p is None else (not p)
     if rv["rv"] == "binop" and rv["op"] in ("Eq", "Ne"):
         for x, y in ((rv["a"], rv["b"]), (rv["b"], rv["a"])):
             if y.get("k") == "const" and y.get("ty") == "bool" and y.get("val") and "int" in y["val"]:
-                p = _polarity(f, x, depth + 1)
+                p = _polarity(f, x, leaf, depth + 1)
                 if p is None:
                     return None
                 same = bool(y["val"]["int"]) == (rv["op"] == "Eq")
@@ -661,6 +687,139 @@ def r4_refs_resolve(ctx):
         ctx.check(R, "error-ref-sites", len(refs) == 2, "operation.responses inserts of an error reference: %d" % len(refs), g, nontrivial=False)
 
 
+# --------------------------------------------------------------------------- R4b
+VISITOR = r"^<schema_util::ReferenceVisitor<'_> as schemars::visit::Visitor>::visit_schema_object$"
+RV = "schema_util::ReferenceVisitor"
+SO_REF = ("schemars::schema::SchemaObject", "reference")
+CONST_SCHEMA_OK = [r"boxed::Box::<T>::new$", r"convert::Into::into$", r"convert::From::from$", r"default::Default::default$", r"string::String::from$", r"string::ToString::to_string$"]
+
+
+def r4b_dependencies_transitive(ctx):
+    R = ctx.rule("C06.R4b", "the dependencies recorded for a Static schema are closed under $ref: ReferenceVisitor, on a reference not yet recorded, stores the generator's definition under "
+                 "that name AND visits that definition recursively (then visits the object's own children); every ApiSchemaGenerator::Static is either built from such a visit of the "
+                 "very schema it stores, or is a constant schema that cannot contain a $ref", floor=13)
+    ds = ctx.ds
+    V = ctx.need_fn(ds, R, VISITOR)
+    fl = Flow(ds, entries=[V.raw["id"]])
+    live = V.reachable(0)
+    # membership test and its "not yet recorded" edge
+    tests = []
+    for bb, t in V.live_calls(r"indexmap::IndexMap::<K, V, S>::contains_key$"):
+        if len(t["args"]) < 2:
+            continue
+        o0, o1 = fl.origins(V, t["args"][0]), fl.origins(V, t["args"][1])
+        if (RV, "dependencies") in o0.fields and SO_REF in o1.fields:
+            tests.append((bb, t))
+    if len(tests) != 1:
+        ctx.lost(R, "the `dependencies.contains_key(name)` test of ReferenceVisitor (%d found)" % len(tests))
+        return
+    tbb, tt = tests[0]
+    dest = tt["dest"]["l"]
+    sws = []
+    for sb, st in V.switches():
+        if sb in live:
+            pol = _polarity(V, st["discr"], leaf=lambda f, op: not op["pl"]["p"] and op["pl"]["l"] == dest)
+            if pol is not None:
+                tb, fb = _bool_targets(V, sb)
+                sws.append((sb, fb if pol else tb))
+    if len(sws) != 1:
+        ctx.lost(R, "the branch on contains_key's result")
+        return
+    sb, absent = sws[0]
+    ctx.check(R, "reference-guard", SO_REF in fl.origins(V, tt["args"][1]).fields and 2 in V.slice(tt["args"][1]).params(),
+              "the name looked up is taken from the visited object's `reference`", (V, tbb))
+    # lookup in the generator's definitions
+    gets = []
+    for bb, t in V.live_calls(r"BTreeMap::<K, V, A>::get$"):
+        if len(t["args"]) < 2:
+            continue
+        o0, o1 = fl.origins(V, t["args"][0]), fl.origins(V, t["args"][1])
+        if any(c.endswith("SchemaGenerator::definitions") for c in o0.calls) and (RV, "generator") in o0.fields and SO_REF in o1.fields:
+            gets.append((bb, t))
+    ctx.check(R, "definition-looked-up", len(gets) == 1 and V.edge_dominates(sb, absent, gets[0][0]) if gets else False,
+              "on the not-yet-recorded edge the definition is fetched from generator.definitions() under the referenced name: %d lookup(s)" % len(gets), (V, sb))
+    if len(gets) != 1:
+        return
+    gbb = gets[0][0]
+    inserts = []
+    for bb, t in V.live_calls(r"indexmap::IndexMap::<K, V, S>::insert$"):
+        if len(t["args"]) < 3:
+            continue
+        o0, o1, o2 = fl.origins(V, t["args"][0]), fl.origins(V, t["args"][1]), fl.origins(V, t["args"][2])
+        if (RV, "dependencies") in o0.fields and SO_REF in o1.fields:
+            inserts.append((bb, (V.id, gbb) in o2.call_sites))
+    real = [bb for bb, isdef in inserts if isdef]
+    ok = bool(real) and V.must_pass(real, start=absent)
+    ctx.check(R, "definition-recorded", ok, "every path from the not-yet-recorded edge stores the fetched definition in `dependencies` under that name: %s" % ok, (V, sb))
+    visits = []
+    for bb, t in V.live_calls(r"^schemars::visit::(visit_schema|Visitor::visit_schema)$"):
+        if len(t["args"]) < 2:
+            continue
+        o1 = fl.origins(V, t["args"][1])
+        if 1 in V.slice(t["args"][0]).params() and (V.id, gbb) in o1.call_sites:
+            visits.append(bb)
+    ok = bool(visits) and V.must_pass(visits, start=absent)
+    ctx.check(R, "definition-visited-recursively", ok,
+              "every path from the not-yet-recorded edge passes the fetched definition to the recursive visit with `self` (references inside a referenced definition are collected): %s (%d visit call(s))" % (ok, len(visits)), (V, sb))
+    okp = bool(visits) and all(any(V.dominates(ib, vb) for ib, isdef in inserts) for vb in visits)
+    ctx.check(R, "recorded-before-recursion", okp, "the name is recorded in `dependencies` before the recursive visit, so a cyclic type terminates at the contains_key test: %s" % okp, (V, sb))
+    tails = [bb for bb, t in V.live_calls(r"^schemars::visit::visit_schema_object$") if len(t["args"]) >= 2 and 1 in V.slice(t["args"][0]).params() and V.slice(t["args"][1]).params() == [2]]
+    ctx.check(R, "own-children-visited", bool(tails) and V.must_pass(tails), "the object's own sub-schemas are visited on every path: %s" % (bool(tails) and V.must_pass(tails)), V)
+    keys = [set(l for l in V.slice(t["args"][1]).locals() if V.local_name(l)) for bb, t in [tests[0], gets[0]]]
+    for bb, t in V.live_calls(r"indexmap::IndexMap::<K, V, S>::insert$"):
+        if bb in real:
+            keys.append(set(l for l in V.slice(t["args"][1]).locals() if V.local_name(l)))
+    common = set.intersection(*keys) if keys else set()
+    ctx.check(R, "one-name-for-test-lookup-store", bool(common - {1, 2}), "the membership test, the lookup and the store use the same `name`: shared locals %s" % sorted(V.local_name(l) for l in common), V)
+    # who builds ApiSchemaGenerator::Static
+    n = 0
+    for f in ds.F.values():
+        lv = None
+        for bb, i, st in f.aggregates("^" + re.escape(ASG) + "$", "Static"):
+            if lv is None:
+                lv = f.reachable(0)
+            if bb not in lv:
+                continue
+            n += 1
+            names = st["rv"].get("fields") or []
+            if "schema" not in names or "dependencies" not in names:
+                ctx.check(R, "static-built-in:%s" % f.id, False, "unexpected shape of ApiSchemaGenerator::Static", (f, bb))
+                continue
+            sop, dop = st["rv"]["ops"][names.index("schema")], st["rv"]["ops"][names.index("dependencies")]
+            dsl, ssl = f.slice(dop), f.slice(sop)
+            deps_calls = dsl.calls(r"schema_util::ReferenceVisitor::<'a>::dependencies$")
+            if deps_calls:
+                c, dbb, dt = deps_calls[0]
+                vis_local = set(f.slice(dt["args"][0]).locals())
+                ok, detail = False, "no schemars::visit::visit_schema(&mut visitor, &mut schema) before the Static is built"
+                for vbb, vt in f.live_calls(r"^schemars::visit::(visit_schema|Visitor::visit_schema|visit_root_schema)$"):
+                    if len(vt["args"]) < 2:
+                        continue
+                    v0 = set(l for l in f.slice(vt["args"][0]).locals() if f.local_name(l))
+                    s1 = set(l for l in f.slice(vt["args"][1], stop_at_calls=r".").locals() if f.local_name(l))
+                    same_visitor = bool(v0 & set(l for l in vis_local if f.local_name(l)))
+                    same_schema = bool(s1 & set(l for l in ssl.locals() if f.local_name(l)))
+                    if same_visitor and same_schema and f.dominates(vbb, bb):
+                        ok, detail = True, "dependencies = visitor.dependencies() after visit_schema(&mut visitor, &mut s) on the schema that is stored"
+                    elif same_visitor and not same_schema:
+                        detail = "the visitor visited a different schema than the one stored"
+                ctx.check(R, "static-built-in:%s" % f.id, ok, "ApiSchemaGenerator::Static in %s: %s" % (f.id, detail), (f, bb))
+            else:
+                bad = callee_allow(ssl, PLUMBING + CONST_SCHEMA_OK)
+                empty = bool(dsl.calls(r"indexmap::IndexMap::<K, V>::new$|default::Default::default$")) and not callee_allow(dsl, PLUMBING + [r"indexmap::IndexMap::<K, V>::new$", r"default::Default::default$"])
+                refset = False
+                for abb, ai, ast in f.aggregates(r"^schemars::schema::SchemaObject$"):
+                    an = ast["rv"].get("fields") or []
+                    if "reference" in an:
+                        ro = f.slice(ast["rv"]["ops"][an.index("reference")])
+                        if any(a[0] == "agg" and a[1] == "std::option::Option" and a[2] == "Some" for a in ro.atoms):
+                            refset = True
+                ok = not bad and empty and not refset and not ssl.params()
+                ctx.check(R, "static-built-in:%s" % f.id, ok,
+                          "ApiSchemaGenerator::Static in %s is a constant schema (callees %s, sets `reference`: %s) with empty dependencies (%s)" % (f.id, [c for c, b in bad], refset, empty), (f, bb))
+    ctx.check(R, "static-construction-sites", n >= 5, "construction sites of ApiSchemaGenerator::Static: %d" % n, V, nontrivial=False)
+
+
 # --------------------------------------------------------------------------- R5
 def r5_determinism(ctx):
     R = ctx.rule("C06.R5", "hash-ordered iteration under gen_openapi flows only into openapi.tags, which is sorted by a total key on every path before return; "
@@ -835,7 +994,7 @@ def r7_order_independent(ctx):
     ctx.check(R, "document-maps-insertion-ordered", all(t.startswith("indexmap::IndexMap<") for t in doc.values()), "document maps: %s" % {k: v.split("<")[0] for k, v in doc.items()}, None)
 
 
-RULES = [("C06.R1", r1_same_filter), ("C06.R2", r2_unpublished), ("C06.R3", r3_placement), ("C06.R4", r4_refs_resolve),
+RULES = [("C06.R1", r1_same_filter), ("C06.R2", r2_unpublished), ("C06.R3", r3_placement), ("C06.R4", r4_refs_resolve), ("C06.R4b", r4b_dependencies_transitive),
          ("C06.R5", r5_determinism), ("C06.R6", r6_idempotent), ("C06.R7", r7_order_independent)]
 
 AD = "dropshot/src/api_description.rs"
@@ -875,6 +1034,19 @@ SELFTEST = [
      "expect": ["C06.R5"], "why": "components.responses is emitted in hash order"},
     {"name": "iterator-drops-version", "kind": "mutant", "edits": [(RT, "                                self.method = iter_handlers_from_node(\n                                    &node,\n                                    self.version,\n                                );", "                                self.method = iter_handlers_from_node(\n                                    &node,\n                                    None,\n                                );")],
      "expect": ["C06.R1"], "why": "below the root node the iterator yields handlers of every version"},
+    {"name": "adv-visitor-not-transitive", "kind": "mutant",
+     "edits": [("dropshot/src/schema_util.rs", "                let mut refschema = self\n                    .generator\n                    .definitions()\n                    .get(name)\n                    .expect(\"invalid reference\")\n                    .clone();\n                self.dependencies.insert(\n                    name.to_string(),\n                    schemars::schema::Schema::Bool(false),\n                );\n                schemars::visit::visit_schema(self, &mut refschema);\n                self.dependencies.insert(name.to_string(), refschema);",
+                "                let refschema = self\n                    .generator\n                    .definitions()\n                    .get(name)\n                    .expect(\"invalid reference\")\n                    .clone();\n                self.dependencies.insert(name.to_string(), refschema);")],
+     "expect": ["C06.R4b"], "why": "adversary B: references inside a referenced definition are never collected -> a header/parameter type that refers to a second named type leaves a dangling $ref"},
+    {"name": "adv-iterator-builder-root-unfiltered", "kind": "mutant",
+     "edits": [(RT, "HttpRouterIter::new(self, version)", "HttpRouterIter::new(self).with_version(version)"),
+               (RT, "    fn new(\n        router: &'a HttpRouter<Context>,\n        version: Option<&'a Version>,\n    ) -> Self {\n        HttpRouterIter {\n            method: iter_handlers_from_node(&router.root, version),",
+                "    fn with_version(mut self, version: Option<&'a Version>) -> Self {\n        self.version = version;\n        self\n    }\n\n    fn new(router: &'a HttpRouter<Context>) -> Self {\n        HttpRouterIter {\n            method: iter_handlers_from_node(&router.root, None),"),
+               (RT, "            version,\n        }\n    }\n\n    /// Produce an iterator over `node`'s children.", "            version: None,\n        }\n    }\n\n    /// Produce an iterator over `node`'s children.")],
+     "expect": ["C06.R1"], "why": "adversary A: builder-style iterator; the root node's handlers are enumerated with version None, so `/`-level endpoints of every version are documented"},
+    {"name": "visitor-visits-other-schema", "kind": "mutant",
+     "edits": [("dropshot/src/extractor/metadata.rs", "        schemars::visit::visit_schema(&mut visitor, &mut s);\n", "        schemars::visit::visit_schema(&mut visitor, &mut schema.clone());\n")],
+     "expect": ["C06.R4b"], "why": "dependencies are collected from a different schema than the one stored"},
     {"name": "visible-eq-false", "kind": "benign", "edits": [(AD, "if !endpoint.visible {", "if endpoint.visible == false {")], "why": "behaviour-preserving: same predicate spelled differently"},
     {"name": "visible-match", "kind": "benign", "edits": [(AD, _VIS, "            match endpoint.visible {\n                false => continue,\n                true => {}\n            }\n")], "why": "behaviour-preserving: if -> match"},
     {"name": "visible-skip-with-extra-read", "kind": "benign", "edits": [(AD, _VIS, "            if !endpoint.visible {\n                let _skipped = endpoint.operation_id.len();\n                continue;\n            }\n")],
@@ -888,6 +1060,9 @@ SELFTEST = [
      "why": "behaviour-preserving: match arms reordered"},
     {"name": "operation-id-via-local", "kind": "benign", "edits": [(AD, "operation.operation_id = Some(endpoint.operation_id.clone());", "let opid = endpoint.operation_id.clone();\n            operation.operation_id = Some(opid);")],
      "why": "behaviour-preserving: value goes through a local"},
+    {"name": "visitor-else-branch", "kind": "benign",
+     "edits": [("dropshot/src/schema_util.rs", "            if !self.dependencies.contains_key(name) {", "            let already = self.dependencies.contains_key(name);\n            if already == false {")],
+     "why": "behaviour-preserving: the membership test goes through a local and `== false`"},
     {"name": "filter-if-to-then", "kind": "benign",
      "edits": [(RT, "            if h.versions.matches(version) {\n                Some((m, h))\n            } else {\n                None\n            }", "            h.versions.matches(version).then(|| (m, h))")],
      "why": "behaviour-preserving: bool::then instead of if/else"},
